@@ -220,7 +220,9 @@ def run_app(tape, r, site, argv, concurrency, sandbox, setup=None, budget_vtime=
 
     def record_fatal(self, error):
         import traceback
-        fatal.append(''.join(traceback.format_exception(type(error), error, error.__traceback__))[-1800:])
+        # (the message can be very long - a path, a document: keep the head of it and the tail of the traceback before it)
+        tb = ''.join(traceback.format_tb(error.__traceback__))[-1500:]
+        fatal.append(tb + '%s: %s' % (type(error).__name__, str(error)[:300]))
         return orig_update(self, error)
     try:
         with env:
